@@ -826,4 +826,27 @@ func wireMain(cfg *config, which string) {
 			emitB(body, fmt.Sprintf("X%d:%s:%s", e.code, hexf(e.msg), hexf(e.data)))
 		}
 	}
+	// valid batches mixing calls (ids of every shape, repeated ids included) with notifications (no id, id null)
+	// in every position: each call is answered under its own id text, in order, notifications not at all
+	for i := 0; i < nB; i++ {
+		n := 2 + r.intn(4)
+		var ms []string
+		for k := 0; k < n; k++ {
+			switch r.intn(5) {
+			case 0:
+				ms = append(ms, `{"jsonrpc":"2.0","method":"m"}`)
+			case 1:
+				ms = append(ms, `{"jsonrpc":"2.0","id":null,"method":"m","params":[1]}`)
+			default:
+				id := genID(r)
+				var probe json.RawMessage
+				if json.Unmarshal([]byte(id), &probe) != nil || id == "" {
+					id = strconv.Itoa(1 + r.intn(3))
+				}
+				ms = append(ms, `{"jsonrpc":"2.0","id":`+id+`,"method":"m"}`)
+			}
+		}
+		mode, raw := genRawValue(r)
+		emitB("["+strings.Join(ms, ",")+"]", "R"+mode+hexf(raw))
+	}
 }
